@@ -372,6 +372,7 @@ func newBackend() *rawBackend {
 	if err != nil {
 		panic(err)
 	}
+	stack.OwnPort(ln.Addr().String())
 	b := &rawBackend{ln: ln, addr: ln.Addr().String(), reply: chatReply, conns: map[net.Conn]bool{}}
 	go func() {
 		for {
